@@ -323,6 +323,13 @@ func init() {
 		return Tuple{Iface{t: errorType /* any non-nil marker */, v: fi}, nilErr}
 	}
 	intrinsics["fs.FileInfo.IsDir"] = func(x *Exec, a []Value) Value { return x.c.st.Bool(a[0].(*FileInfoObj).isDir) }
+	intrinsics["fs.FileInfo.Size"] = func(x *Exec, a []Value) Value { return x.intConst(int64(a[0].(*FileInfoObj).size)) }
+	intrinsics["fs.FileInfo.Mode"] = func(x *Exec, a []Value) Value {
+		if a[0].(*FileInfoObj).isDir {
+			return x.c.st.Const(32, 1<<31|0o755)
+		}
+		return x.c.st.Const(32, 0o644)
+	}
 	intrinsics["fs.FileInfo.Name"] = func(x *Exec, a []Value) Value { return a[0].(*FileInfoObj).name }
 	intrinsics["fs.DirEntry.IsDir"] = func(x *Exec, a []Value) Value { return x.c.st.Bool(a[0].(*DirEntryObj).isDir) }
 	intrinsics["fs.DirEntry.Name"] = func(x *Exec, a []Value) Value { return a[0].(*DirEntryObj).name }
